@@ -6,13 +6,47 @@
    axioms of the standard library's Reals (ClassicalDedekindReals.sig_forall_dec, sig_not_dec,
    FunctionalExtensionality.functional_extensionality_dep) and Classical_Prop.classic. *)
 From Coq Require Import Floats.SpecFloat ZArith Lia.
-From Flocq Require Import Core.FLX IEEE754.BinarySingleNaN IEEE754.PrimFloat.
+From Flocq Require Import Core.FLX Calc.Round IEEE754.BinarySingleNaN.
 From Vx Require Import base.Prelude base.ListX gen.GenPalette model.Colour.
 From Vx Require Import model.ColourFloat.
 Local Open Scope Z_scope.
 
 (* Flocq's binary64 (BinarySingleNaN.binary_float 53 1024) with round to nearest even *)
 Definition b64 := binary_float 53 1024.
+Definition Hprec : FLX.Prec_gt_0 53 := eq_refl.
+Definition Hmax : Prec_lt_emax 53 1024 := eq_refl.
+
+(* SpecFloat's rounding is Flocq's rounding in mode_NE (as in Flocq's IEEE754/PrimFloat.v, repeated
+   here so that primitive floats and their axioms stay out of the context) *)
+Lemma round_nearest_even_equiv s m l : round_nearest_even m l = choice_mode mode_NE s m l.
+Proof.
+  destruct l as [|c]; [reflexivity|]. destruct c; try reflexivity.
+  cbn. unfold Round.cond_incr. now destruct (Z.even m).
+Qed.
+
+Lemma binary_round_aux_equiv sx mx ex lx :
+  SpecFloat.binary_round_aux 53 1024 sx mx ex lx = binary_round_aux 53 1024 mode_NE sx mx ex lx.
+Proof.
+  unfold SpecFloat.binary_round_aux, binary_round_aux.
+  destruct (shr_fexp 53 1024 mx ex lx) as [mrs' e']. cbn [fst snd].
+  now rewrite (round_nearest_even_equiv sx).
+Qed.
+
+Lemma binary_round_equiv s m e :
+  SpecFloat.binary_round 53 1024 s m e = binary_round 53 1024 mode_NE s m e.
+Proof.
+  unfold SpecFloat.binary_round, binary_round, shl_align_fexp.
+  destruct (shl_align m e (fexp 53 1024 (Z.pos (digits2_pos m) + e))) as [mz ez].
+  apply binary_round_aux_equiv.
+Qed.
+
+Lemma binary_normalize_equiv m e szero :
+  SpecFloat.binary_normalize 53 1024 m e szero
+  = B2SF (binary_normalize 53 1024 Hprec Hmax mode_NE m e szero).
+Proof.
+  destruct m as [|p|p]; [reflexivity| |]; cbn [SpecFloat.binary_normalize binary_normalize];
+    rewrite B2SF_SF2B; apply binary_round_equiv.
+Qed.
 Definition b64mul : b64 -> b64 -> b64 := @Bmult 53 1024 Hprec Hmax mode_NE.
 Definition b64add : b64 -> b64 -> b64 := @Bplus 53 1024 Hprec Hmax mode_NE.
 Definition b64div : b64 -> b64 -> b64 := @Bdiv 53 1024 Hprec Hmax mode_NE.
